@@ -73,7 +73,7 @@ pub fn gen(rng: &mut Rng, tiny: bool, focus: &str) -> DCfg {
         };
         let at_build = rng.chance(1, 2);
         let start_after = if at_build { 0 } else { rng.below(total) };
-        let unsub_after = if kind <= 1 && rng.chance(2, 3) { Some(if rng.chance(1, 3) { total } else { rng.range(start_after, total) }) } else { None };
+        let unsub_after = if (kind <= 1 && rng.chance(2, 3)) || (kind == 2 && rng.chance(1, 3)) { Some(if rng.chance(1, 3) { total } else { rng.range(start_after, total) }) } else { None };
         actors.push(Actor { kind, at_build, start_after, unsub_after, double_unsub: rng.chance(1, 3), cap: rng.range(1, 4) as usize, pol: rng.below(3) as u8, default_api: rng.chance(1, 8), slow: rng.chance(1, 3) });
     }
     // at most one iterator per scenario keeps the rendezvous channels from serialising everything
@@ -818,6 +818,33 @@ pub fn c16(h: &Hist, s: u8, v: &mut Verdicts) {
             continue;
         }
         let cbs: Vec<(u32, u8)> = h.evs.iter().filter(|e| e.k == K::SelCb && e.idx == si.id).map(|e| (e.a, e.x as u8)).collect();
+        if !t.uinv.is_empty() {
+            // unsubscribed mid-stream: where its stream ends is not observable from outside (and one
+            // notification may still be in flight, see C09); whatever it was shown, the callbacks carry
+            // the right value for their action, in stream order, and never the same value twice in a row
+            let mut lastp: Option<usize> = None;
+            for (k, (a, val)) in cbs.iter().enumerate() {
+                match pos.get(a) {
+                    None => v.fail("C16", format!("store {}: selector subscription {}: callback for {} which is not a notifying action", s, si.id, id_str(*a))),
+                    Some(&p) => {
+                        if e_stream[p].2 != *val {
+                            v.fail("C16", format!("store {}: selector subscription {}: callback for {} delivered value {} but that action selected {}", s, si.id, id_str(*a), val, e_stream[p].2));
+                        }
+                        if let Some(l) = lastp {
+                            if p <= l {
+                                v.fail("C16", format!("store {}: selector subscription {}: callbacks out of stream order at {}", s, si.id, id_str(*a)));
+                            }
+                        }
+                        lastp = Some(p);
+                    }
+                }
+                if k > 0 && cbs[k - 1].1 == *val {
+                    v.fail("C16", format!("store {}: selector subscription {}: the callback delivered value {} twice in a row (for {} and {}): the selected value had not changed", s, si.id, val, id_str(cbs[k - 1].0), id_str(*a)));
+                }
+            }
+            v.count("c16.live_callbacks_checked", cbs.len() as u64);
+            continue;
+        }
         // the stream it was shown starts somewhere between "first action whose notification could
         // include it" and "first action the twin saw" (the twin was registered right after it)
         let tw_first = si.twin.and_then(|tw| h.evs.iter().find(|e| e.k == K::SBeg && e.idx == tw)).and_then(|e| pos.get(&e.a).copied()).unwrap_or(e_stream.len());
